@@ -161,8 +161,8 @@ static void fam_k3(int thorough) {	// presets x checks through the one-shot easy
 }
 static uint8_t PD[40000];
 static void fam_k4(int thorough) {	// preset dictionaries shorter and longer than the dictionary
-	for (size_t i = 0; i < sizeof PD; i++) PD[i] = "abbab"[i % 5]; static const unsigned T[][3] = { {3,0,2}, {0,0,0}, {0,4,4}, {4,0,0}, {1,2,1}, {0,0,4}, {2,2,0}, {0,3,3}, {3,1,2} }; static const uint32_t PS[] = { 0, 100, 9000 };
-	for (int t = 0; t < 9; t++) for (int pd = 0; pd < 3; pd++) for (int m = 0; m < 5; m++) for (int l2 = 0; l2 < 2; l2++) { if (!take()) continue; set_lzma(&OL[0], 4096, T[t][0], T[t][1], T[t][2], m & 1 ? LZMA_MODE_NORMAL : LZMA_MODE_FAST, 16, MFS[m], 0); OL[0].preset_dict = PS[pd] ? PD : NULL; OL[0].preset_dict_size = PS[pd]; preset_dict = OL[0].preset_dict;
+	for (size_t i = 0; i < sizeof PD; i++) PD[i] = "abbab"[i % 5]; static const unsigned T[][3] = { {3,0,2}, {0,0,0}, {0,4,4}, {4,0,0}, {1,2,1}, {0,0,4}, {2,2,0}, {0,3,3}, {3,1,2} }; static const uint32_t PS[] = { 0, 100, 9000, 0 };	/* the fourth: a non-NULL pointer with size 0, documented to mean the same as NULL */
+	for (int t = 0; t < 9; t++) for (int pd = 0; pd < 4; pd++) for (int m = 0; m < 5; m++) for (int l2 = 0; l2 < 2; l2++) { if (!take()) continue; set_lzma(&OL[0], 4096, T[t][0], T[t][1], T[t][2], m & 1 ? LZMA_MODE_NORMAL : LZMA_MODE_FAST, 16, MFS[m], 0); OL[0].preset_dict = PS[pd] || pd == 3 ? PD : NULL; OL[0].preset_dict_size = PS[pd]; preset_dict = OL[0].preset_dict;
 		config c; cfg_lzma(&c, EN_RAW, l2 ? LZMA_FILTER_LZMA2 : LZMA_FILTER_LZMA1, &OL[0]); n_cfg++; all_sigma2(&c, thorough ? 9 : 6); in_periodic(5, 0x0D, 6000, 4097); roundtrip(&c); preset_dict = NULL; }
 }
 static void fam_k5(int thorough) {	// filter chains
